@@ -3,6 +3,7 @@ CONSTANTS Kinds = {"plain", "mixed", "enc", "root"}
           MixedServerSet = {"none", "rel"}
           MixedCoreServers = {"none"}
           MixedMethKeys = {"G", "GP"}
+          PlainMethKeys = {"G", "P", "GP"}
           MaxLen = 2
           MaxT = 2
           ServerSet = {"none", "rel", "relslash", "relroot", "abs", "absvar", "two", "psfirst", "pslast", "relpfx", "abspfx"}
